@@ -14,7 +14,7 @@ from . import c05
 
 ID = "C03"
 ENGINE = "net+sec"
-RUNS = {"quick": 1000, "thorough": 25000}
+RUNS = {"quick": 1000, "thorough": 14000}
 DOUBLE = {"quick": 32, "thorough": 300}
 RULE_TEXT = ("one run = 2-4 secured stations exchanging genuine CAM/VAM/DENM/generic traffic in virtual time plus an adversary node on the ether that "
              "(a) mutates captured genuine secured frames (single-bit flip, byte substitution, truncation, extension at seeded positions), "
